@@ -24,9 +24,43 @@ class C08(PropBase):
     thorough_per_shard = 1500
     counter = 0
 
-    def scenario(self, rng, tier):
+    def slow_generator(self, rng):
+        """Judge-only (`no_model`: in the model producing a frame takes no time): the payload comes from a generator that needs a noticeable and
+        varying time to produce the bytes of some Consecutive Frames.  The separation time counts from the moment a frame is HANDED to the CAN
+        layer, so the time spent building a frame must not be taken off the gap to the next one."""
         a, _ = gen.rand_addr_pair(rng, mode=rng.choice([0, 0, 3, 6]), asym_prob=0)
         params = {}
+        ovr = rng.choice([None, None, 0.003, 0.05])
+        if ovr is not None:
+            params['override_receiver_stmin'] = ovr
+        ops = [{'op': 'layer', 'i': 0, 'addr': a, 'params': params}]
+        pre = gen.prefix_len(a, 'tx')
+        c = 7 - pre
+        ncf = rng.choice([3, 5, 9])
+        n = (6 - pre) + c * ncf - rng.randrange(0, c)
+        b = rng.choice([1, 5, 20, 0x7F, 0xF1, 0xF9])
+        eff = ref.stmin_ns(b) if ovr is None else int(ovr * 1e9)
+        cost = {}
+        for k in range(ncf):
+            if rng.random() < 0.5:
+                # the first byte of Consecutive Frame k+1 takes this long (up to about the separation time itself)
+                cost[(6 - pre) + c * k] = rng.choice([eff // 4, eff // 2, eff - 1, eff + 1000, 1000])
+        ops.append({'op': 'send', 'i': 0, 'id': 1, 'gen': (n, gen.rand_payload(rng, n)), 'gen_cost': cost})
+        ops.append({'op': 'process', 'i': 0})
+        fid, ext, data = fc_frame(a, 0, b)
+        ops.append({'op': 'frame', 'i': 0, 'id': fid, 'ext': ext, 'data': data})
+        for k in range(ncf * 4 + 4):
+            ops.append({'op': 'process', 'i': 0})
+            ops.append({'op': 'tick', 'dt': rng.choice([0, 1, eff // 3, eff // 2, eff + 1])})
+        return {'ops': ops, 'no_model': True}
+
+    def scenario(self, rng, tier):
+        if rng.random() < 0.06:
+            return self.slow_generator(rng)
+        a, _ = gen.rand_addr_pair(rng, mode=rng.choice([0, 0, 3, 6]), asym_prob=0)
+        params = {}
+        if rng.random() < 0.3:
+            params['wftmax'] = rng.choice([1, 3])
         if rng.random() < 0.3:
             params['tx_data_length'] = rng.choice([8, 12, 64])
         # (values above 127 ms too: an override is not limited to what an STmin byte can express)
@@ -71,6 +105,11 @@ class C08(PropBase):
                 fid, ext, data = fc_frame(a, bs, cur_b)
                 ops.append({'op': 'frame', 'i': 0, 'id': fid, 'ext': ext, 'data': data})
                 sent_fc += 1
+            elif r > 0.9 and not big:
+                # a Flow Control that is NOT a ContinueToSend (Wait: refused with wftmax = 0, honoured otherwise) carries an STmin byte too; it
+                # says nothing about the separation time, which stays the one of the most recent ContinueToSend
+                fid, ext, data = fc_frame(a, rng.choice([0, bs, 5]), rng.choice([0, 0, 1, 0x7F, 0xF1, rng.choice(gen.VALID_STMIN)]), status=1)
+                ops.append({'op': 'frame', 'i': 0, 'id': fid, 'ext': ext, 'data': data})
             q = rng.random()
             if q < 0.25:
                 dt = 0
